@@ -109,6 +109,7 @@ type FnCtx struct {
 	appendSites map[ssa.Instruction]int
 	unrollTag string // suffix making obligation names unique inside unrolled loops
 	pureEval  bool   // evaluating the body of an opaque spec function: memory must not be read
+	assumeTag string
 }
 
 type execError struct{ msg string }
@@ -133,6 +134,15 @@ func (fx *FnCtx) assume(t *Term) {
 		return
 	}
 	fx.root.assumes = append(fx.root.assumes, t)
+	fx.root.assumeNotes = append(fx.root.assumeNotes, fx.assumeTag)
+}
+
+// assumeTagged records a hypothesis together with its origin (used to select hypotheses per goal).
+func (fx *FnCtx) assumeTagged(t *Term, tag string) {
+	save := fx.assumeTag
+	fx.assumeTag = tag
+	fx.assume(t)
+	fx.assumeTag = save
 }
 
 func (fx *FnCtx) oblName(kind string) string {
@@ -650,8 +660,76 @@ func (fx *FnCtx) handleLoop(li *loopInfo, incoming []*Edge, rets *[]retInfo) []*
 		hv[phi] = v
 	}
 	envH := fx.loopEnv(li, stH, hv)
+	// Equational invariants become substitutions: a top-level conjunct "h == t" where h is a
+	// havoc symbol of a header phi and t does not mention such symbols replaces h by t. This is
+	// only a use of the assumed equality; it keeps index terms free of needless symbols.
+	havocSyms := map[*Term]bool{}
+	for _, phi := range phis {
+		for _, l := range hv[phi].L {
+			if l.Op == "sym" {
+				havocSyms[l] = true
+			}
+		}
+	}
+	subst := map[*Term]*Term{}
+	mentions := func(t *Term) bool {
+		found := false
+		seen := map[*Term]bool{}
+		var w func(x *Term)
+		w = func(x *Term) {
+			if found || seen[x] {
+				return
+			}
+			seen[x] = true
+			if havocSyms[x] {
+				found = true
+				return
+			}
+			for _, a := range x.Args {
+				w(a)
+			}
+		}
+		w(t)
+		return found
+	}
 	for _, c := range spec.Invariants {
-		fx.assume(Implies(reachE, fx.evalBool(envH, c.Expr)))
+		t := fx.evalBool(envH, c.Expr)
+		var conj []*Term
+		if t.Op == "and" {
+			conj = t.Args
+		} else {
+			conj = []*Term{t}
+		}
+		for _, e := range conj {
+			if e.Op != "=" {
+				continue
+			}
+			a, b := e.Args[0], e.Args[1]
+			if havocSyms[b] && !havocSyms[a] {
+				a, b = b, a
+			}
+			if havocSyms[a] && subst[a] == nil && !mentions(b) {
+				subst[a] = b
+			}
+		}
+	}
+	if len(subst) > 0 {
+		for _, phi := range phis {
+			v := hv[phi]
+			nv := Value{T: v.T, L: make([]*Term, len(v.L)), P: v.P, Fn: v.Fn}
+			for i, l := range v.L {
+				if r, ok := subst[l]; ok {
+					nv.L[i] = r
+				} else {
+					nv.L[i] = l
+				}
+			}
+			hv[phi] = nv
+		}
+		envH = fx.loopEnv(li, stH, hv)
+	}
+	for _, c := range spec.Invariants {
+		fx.assumeTagged(Implies(reachE, fx.evalBool(envH, c.Expr)), "inv:"+c.Label)
 	}
 	var d0 *Term
 	if spec.Decreases != nil {
